@@ -31,7 +31,7 @@ fn topic(faults: bool, asyncness: u8, cancel: bool, lifecycle: bool, dynamic_sub
 }
 
 fn cache(f: impl FnOnce(&mut CacheProfile)) -> CacheFamily {
-  let mut p = CacheProfile { faults: true, expiry: false, loader: false, listener: false, bounded: false, async_clients: true, bulk_ops: true };
+  let mut p = CacheProfile { faults: true, expiry: false, loader: false, listener: false, bounded: false, async_clients: true, bulk_ops: true, loader_race: false };
   f(&mut p);
   CacheFamily { profile: p }
 }
@@ -167,6 +167,7 @@ pub fn check_spec(id: &str) -> Option<CheckSpec> {
         lane("cache/bounded", cache(|p| p.bounded = true), 40_000, 1_200_000),
         lane("cache/bounded/loader+listener", cache(|p| { p.bounded = true; p.loader = true; p.listener = true; }), 30_000, 900_000),
         lane("cache/unbounded/no-faults", cache(|p| p.faults = false), 20_000, 600_000),
+        lane("cache/loader/invalidate-race", cache(|p| { p.loader = true; p.loader_race = true; }), 30_000, 900_000),
         lane("cache/hist/exact-model", crate::cache::hist::HistFamily { snapshots: true, faults: true }, 10_000, 1_000_000),
       ],
       assumptions: CACHE_ASSUME.iter().map(|s| s.to_string()).collect(),
@@ -224,6 +225,8 @@ pub fn check_spec(id: &str) -> Option<CheckSpec> {
       lanes: vec![
         lane("cache/loader/unbounded", cache(|p| { p.loader = true; }), 40_000, 1_200_000),
         lane("cache/loader/bounded", cache(|p| { p.loader = true; p.bounded = true; }), 30_000, 900_000),
+        // only fetch_with vs remove / invalidate / clear over two keys: a miss after a completed invalidation must load anew
+        lane("cache/loader/invalidate-race", cache(|p| { p.loader = true; p.loader_race = true; }), 40_000, 1_200_000),
       ],
       assumptions: CACHE_ASSUME.iter().map(|s| s.to_string()).collect(),
       notes: vec![],
